@@ -633,6 +633,9 @@ class StyleProperties:
 
     @classmethod
     def has_px(cls, attrib_value: styles.RubyReserveType) -> bool:
+      if attrib_value is styles.SpecialValues.none:
+        return False
+
       return attrib_value.length is not None and attrib_value.length.units == styles.LengthType.Units.px
 
     @classmethod
@@ -891,6 +894,10 @@ class StyleProperties:
 
     @classmethod
     def from_model(cls, xml_element, model_value: styles.TextEmphasisType):
+      if model_value is styles.SpecialValues.none:
+        xml_element.set(f"{{{cls.ns}}}{cls.local_name}", model_value.value)
+        return
+
       actual_values = []
 
       actual_values.append(model_value.style.value)
@@ -968,6 +975,9 @@ class StyleProperties:
 
     @classmethod
     def has_px(cls, attrib_value: styles.TextShadowType) -> bool:
+
+      if attrib_value is styles.SpecialValues.none:
+        return False
 
       for shadow in attrib_value.shadows:
         if shadow.x_offset.units == styles.LengthType.Units.px or \
